@@ -18,7 +18,7 @@ PROPS = {
                       'vector lengths (loop invariants, no bound). Decoders: round trip, truncation-error-iff-strict-prefix '
                       'and extra-data error proved for CompactSize, byte strings, outpoints, inputs, outputs, headers, '
                       'witness stacks and the three vector decoders (ghost-valued prefix contracts, split lemmas by '
-                      'explicit induction). The transaction/block-level decoder composition is not proved.',
+                      'explicit induction). The transaction/block-level decoder composition (constructors included) is not proved: BOUNDED units deserialise the reference encoding of generated mutable transactions and blocks (all field boundaries incl. nLockTime 0xffffffff, witness items of 252..1000 bytes) and compare.',
         'level_note': 'trusted: pyvc, z3/cvc5, struct and BytesIO contracts, spec functions in specs/wire.py',
         'design_ref': 'DESIGN.md 5 C01',
         'explanation': 'wire format contracts',
@@ -162,7 +162,7 @@ PROPS = {
                       'is_push_only, has_canonical_pushes, is_valid, GetSigOpCount (legacy and accurate, counting up '
                       'to the first malformed push, never raising) proved equal to recursive reference definitions by '
                       'position-loop invariants; p2sh / witness-program / v0 keyhash+scripthash (+nested) / unspendable '
-                      'predicates, encode_op_pushdata (shortest push), encode_op_n / decode_op_n / is_small_int, vch2bn.',
+                      'predicates, encode_op_pushdata (shortest push), encode_op_n / decode_op_n / is_small_int, vch2bn; integer coercion of the script builder (OP_0, OP_1..OP_16, OP_1NEGATE, otherwise the shortest push of the minimal script number - bn2vch itself assumed + bounded).',
         'level_note': 'trusted: pyvc, z3/cvc5, struct contracts, specs/script.py',
         'design_ref': 'DESIGN.md 5 C08',
         'explanation': 'script contracts',
@@ -279,7 +279,7 @@ PROPS = {
         'level_text': 'Proved: exact frame bytes (magic of the selected chain, NUL-padded command, length, checksum, payload) '
                       'for five message types; for every stream content: wrong magic -> ValueError, declared length above the limit '
                       '-> SerializationError with exactly the 24 header bytes consumed, short frame -> SerializationTruncationError, '
-                      'bad checksum -> ValueError, success consumes exactly 24+length bytes and never more. Bounded: all seventeen types.',
+                      'bad checksum -> ValueError, success consumes exactly 24+length bytes and never more. Bounded: all seventeen types - byte-identical re-framing, frame layout, and the payload bytes against an executable rendering of the protocol documentation (specs/p2p.py ref_payload: network-byte-order ports, IPv4-mapped addresses, headers with their transaction-count byte, version messages from 70001 on with the relay flag).',
         'level_note': 'trusted: pyvc, z3/cvc5, specs/p2p.py; bounded unit runs the real code on generated messages',
         'design_ref': 'DESIGN.md 5 C18',
         'explanation': 'p2p contracts',
